@@ -1,6 +1,6 @@
 """Build-time tool (never run by a check): breakdown of the listed known findings of the enumerated Stream B scope
-(streamb_gen2, families sb_nest*) by property, guard, history length, id style of the acting side, flavour, schedule
-and history.  Runs no engine: it recomputes the case id of every enumerated case and looks it up in the auto entries of
+(streamb_gen2 / streamb_gen3, families sb_nest* / sb_reuse*) by property, guard, history length, id style of the acting side, flavour, schedule
+and history (--nest / --reuse: only the families of generator 2 / 3).  Runs no engine: it recomputes the case id of every enumerated case and looks it up in the auto entries of
 known_findings.json.  Usage: python -m harness.tools_nest_report [C01 C03 C04] [--histories]"""
 import collections
 import json
@@ -8,22 +8,28 @@ import sys
 
 from . import framework as fw
 from . import streamb
-from . import streamb_gen2 as G
+from . import streamb_gen2 as G2
+from . import streamb_gen3 as G3
 
-FAMS = {"sb_nest": (G.case, G.BLOCKS_ALL, G.N_ALL), "sb_nest_one": (G.one, G.BLOCKS_ONE, G.N_ONE),
-        "sb_nest_two": (G.two, G.BLOCKS_TWO, G.N_TWO)}
+FAMS = {"sb_nest": (G2, G2.case, G2.BLOCKS_ALL, G2.N_ALL), "sb_nest_one": (G2, G2.one, G2.BLOCKS_ONE, G2.N_ONE),
+        "sb_nest_two": (G2, G2.two, G2.BLOCKS_TWO, G2.N_TWO),
+        "sb_reuse": (G3, G3.case, G3.BLOCKS_ALL, G3.N_ALL), "sb_reuse_one": (G3, G3.one, G3.BLOCKS_ONE, G3.N_ONE),
+        "sb_reuse_two": (G3, G3.two, G3.BLOCKS_TWO, G3.N_TWO)}
 
 
 def main():
     args = [a for a in sys.argv[1:] if not a.startswith("--")]
     show_hist = "--histories" in sys.argv
+    only = "sb_reuse" if "--reuse" in sys.argv else ("sb_nest" if "--nest" in sys.argv else None)
     props = args or ["C01", "C03", "C04"]
     data = json.load(open(fw.KNOWN))
     for prop in props:
         for fam, nq, nt in streamb.PLAN[prop]["families"]:
             if fam not in FAMS:
                 continue
-            gen, blocks, n_all = FAMS[fam]
+            G, gen, blocks, n_all = FAMS[fam]
+            if only and not fam.startswith(only):
+                continue
             ids = {}
             for k in data["findings"]:
                 if k.get("auto") and k["id"].startswith("%s-SB-%s-" % (prop, fam)):
@@ -51,7 +57,7 @@ def main():
                 tot[(g, "quick" if i < nq else "thorough-only")] += 1
                 by_style[(variant, len(hist), style, g)] += 1
                 by_flav[("oip=%s cs=%s" % (fk[0], fk[1]), "side=%d" % side, style, g)] += 1
-                by_sched[(G.SCHEDULES[s], g)] += 1
+                by_sched[((G.SCHEDULES[s] if hasattr(G, "SCHEDULES") else G.schedule_names(len(hist))[s]), g)] += 1
                 by_hist[(variant, names, style, g)] += 1
             print("== %s %s (%s): %d cases enumerated, %d listed ids, %d matched" % (prop, fam, G.VERSION, nt, len(ids), found))
             for k, v in sorted(tot.items()):
